@@ -730,6 +730,8 @@ const prelude = `(set-option :produce-models true)
 (define-fun tmod ((a Int) (b Int)) Int (- a (* b (tdiv a b))))
 (declare-fun strlen (Int) Int)
 (declare-fun root (Int) Int)
+(declare-fun foreign (Int) Bool)
+(declare-fun foreignx (Int) Bool)
 (assert (= (root 0) 0))
 (declare-fun dyntype (Int) Int)
 (declare-fun subtag (Int) Int)
